@@ -495,6 +495,7 @@ func cmdCheck(args []string) int {
 		Inconclusive map[string]int    `json:"inconclusive,omitempty"`
 		Validated    int               `json:"traces_validated_against_impl"`
 		Funcs        []string          `json:"functions_encoded"`
+		Foreign      []string          `json:"uninitialised_foreign_globals_read,omitempty"`
 	}
 	var hrs []hres
 	totPaths, totQueries, totValidated := 0, 0, 0
@@ -617,6 +618,10 @@ func cmdCheck(args []string) int {
 			funcSet[f] = true
 		}
 		sort.Strings(hr.Funcs)
+		for f := range sh.ForeignGlobals {
+			hr.Foreign = append(hr.Foreign, f)
+		}
+		sort.Strings(hr.Foreign)
 		hrs = append(hrs, hr)
 		totPaths += sh.Stats.Paths
 		totQueries += h.queries
